@@ -376,11 +376,17 @@ class AgentWorld(object):
                               bytes(p._receive_buffer)))
         rc = CONF.bgp.running_config
         fp = f.protocol
+        # which connector the peering remembers (attribute introduced by the connector fix; absent on older trees)
+        pc = getattr(self.peering, 'connector', 'n/a')
+        if pc is None or pc == 'n/a':
+            conn_ref = pc
+        else:
+            conn_ref = pc.state if pc.state != 'connected' else ('connected' if pc.transport.connected else 'closed')
         return (self.reported_state(), f.allow_automatic_start, f.hold_time, round(f.keep_alive_time, 6),
                 calls, tuple(conns), fp is None, self.peering.estab_protocol is None,
                 bool(fp is not None and fp.transport is not None and fp.transport.connected),
                 repr(_summ(rc['capability']['local'])), repr(_summ(rc['capability']['remote'])),
-                self.peering.peer_id, self.peering.bgp_id, self.handler.inter_mq.empty(), tuple(extra))
+                self.peering.peer_id, self.peering.bgp_id, self.handler.inter_mq.empty(), conn_ref, tuple(extra))
 
 
 class ReplayDivergence(Exception):
